@@ -254,6 +254,24 @@ func r14b(c *an.Ctx) {
 					break
 				}
 			}
+			if !srcOwn {
+				// the own copy may be filled with maps.Copy(copy, w.theMap) instead of a loop
+				var srcMap ssa.Value = an.Strip(a[1])
+				if mi, isMI := srcMap.(*ssa.MakeInterface); isMI {
+					srcMap = an.Strip(mi.X)
+				}
+				for _, cp := range an.Calls(fn, func(n string, _ ssa.CallInstruction) bool { return strings.HasPrefix(n, "maps.Copy") }) {
+					args := cp.Common().Args
+					if len(args) != 2 || !(an.Strip(args[0]) == srcMap || an.SameVar(args[0], srcMap) || an.DerivesFrom(srcMap, an.Strip(args[0]))) {
+						continue
+					}
+					for _, l := range an.BackSlice(args[1], an.SliceOpts{}) {
+						if (l.Kind == "field" || l.Kind == "via") && strings.Contains(l.Path, "theMap") {
+							srcOwn = true
+						}
+					}
+				}
+			}
 			override := false
 			for _, e := range an.VariadicElems(a[2]) {
 				if f, isF := an.Strip(e).(*ssa.Function); isF && strings.HasSuffix(f.String(), "mergo.WithOverride") {
